@@ -1,7 +1,7 @@
 (* C20 - today's code violates the property: witnesses for the two defective places, closed by vm_compute.
    Strings are encoded by rank: 'A' 'B' 'C' 'D' = 1 2 3 4. *)
 From Coq Require Import ZArith List Bool.
-From OG Require Import C20.Model.
+From OG Require Import C20.Model C20.Proofs C20.Cover C20.ScanProofs C20.NullOrder.
 Import ListNotations.
 Open Scope Z_scope.
 
@@ -76,3 +76,37 @@ Example C20_index_rewrite_witness_repaired :
   exists rpn, compile [true; true; true] w3_cond = Some rpn /\
     may_range repaired [true; true; true] rpn (build_index [3%nat; 2%nat] w3_keys) 0 1 = true.
 Proof. eexists. split; [vm_compute; reflexivity|]. vm_compute. repeat split. Qed.
+
+(* ---------- null keys: the data is in the writer's order, today's reader reads a null index cell as +infinity ----------
+   finding C20-null-key-sort-order, witness corpus/C20/w8: f < 0.5 over (null)(0)(0)(1), one fragment. Floats by rank:
+   pad (-MaxFloat64) = 0, 0.0 = 1, 0.5 = 2, 1.0 = 3. The index is [null; 1.0]: read as [+inf, 1.0] the interval is
+   empty and Scan returns no range although two rows match. *)
+Theorem C20_null_order_refuted :
+  exists isint c rpn keys pads sizes i,
+    compile isint c = Some rpn /\ writer_sorted pads keys /\ frag_matches nk0 c sizes keys i /\
+    scan repaired isint rpn (read_index null_posinf pads (build_index sizes keys)) (length sizes) 8 0 = ScanOk [].
+Proof.
+  exists [false], (CAtom 0 Clt 2), [EIn 0 (mkR NegInf (Fin 2) false false)], [[None]; [Some 1]; [Some 1]; [Some 3]], [0], [4%nat], 0%nat.
+  split; [reflexivity|]. split; [apply sortedb_true; vm_compute; reflexivity|]. split.
+  - exists [Some 1]. split; [right; left; reflexivity | reflexivity].
+  - vm_compute. reflexivity.
+Qed.
+Print Assumptions C20_null_order_refuted.
+
+(* the rejected candidate repair (props/C20/fix3_candidate.patch: use the null cell as it is - FieldRef.Less orders a
+   null strictly BEFORE every value) is unsound too, because the writer lets a null TIE with the pad value:
+   boolean key false false | null false, condition k = false (false = pad = 0). The index is [false; null; false];
+   fragment 0 gets the interval [false, null] = [0, -inf], which is empty, and both rows of the fragment match. *)
+Theorem C20_null_strictly_first_refuted :
+  exists isint c rpn keys pads sizes i,
+    compile isint c = Some rpn /\ writer_sorted pads keys /\ frag_matches nk0 c sizes keys i /\
+    covered i (scan_binary (may_range_first isint rpn (build_index sizes keys)) (length sizes)) = false /\
+    (* the repaired reading keeps it *)
+    covered i (scan_binary (may_range repaired isint rpn (read_index null_pad pads (build_index sizes keys))) (length sizes)) = true.
+Proof.
+  exists [false], (CAtom 0 Ceq 0), [EIn 0 (point (Fin 0))], [[Some 0]; [Some 0]; [None]; [Some 0]], [0], [2%nat; 2%nat], 0%nat.
+  split; [reflexivity|]. split; [apply sortedb_true; vm_compute; reflexivity|]. split.
+  - exists [Some 0]. split; [left; reflexivity | reflexivity].
+  - split; vm_compute; reflexivity.
+Qed.
+Print Assumptions C20_null_strictly_first_refuted.
